@@ -266,7 +266,14 @@ impl Workload for C22 {
             let key = format!("{}:{}", q, d.code());
             if !self.baseline.contains_key(&key) {
                 match run_child(self.depth, &[(*q, d.clone())], "base") {
-                    Ok(mut o) => { self.baseline.insert(key, o.remove(0)); out.count("baseline_processes", 1); }
+                    Ok(mut o) => {
+                        let b = o.remove(0);
+                        // a fast query whose baseline reports a timeout after a real second was stalled by the machine: do not keep it
+                        if *q < FIRST_SLOW && b.answers.iter().any(|a| a == TIMEOUT_MSG) && b.elapsed_ms >= 1000 {
+                            out.verdict = Verdict::Inconclusive(format!("baseline of a fast query really took {} ms (machine stall)", b.elapsed_ms)); return out;
+                        }
+                        self.baseline.insert(key, b); out.count("baseline_processes", 1);
+                    }
                     Err(e) => { out.verdict = Verdict::Inconclusive(format!("baseline process failed: {}", e)); return out; }
                 }
             }
